@@ -117,7 +117,7 @@ inline std::vector<R> genGrid(Rng &g, bool wellScaled, size_t minPts,
   if (wellScaled) {
     // lattice units of 1/16 in [-128,128]; gaps >= 2 units
     const int64_t room = 256;
-    if (n > 60) n = 60;
+    if (n > 120) n = 120;
     std::vector<int64_t> gaps(n - 1);
     const int shape = (int)g.below(4);
     int64_t total = 0;
